@@ -743,6 +743,80 @@ func (t *tr2) call(x *ast.CallExpr, bs *[]bind) string {
 			}
 		}
 	}
+	// call of a registered external method: x.m(args)
+	if f, ok := x.Fun.(*ast.SelectorExpr); ok {
+		if fn, kind, owner := t.extMethodOf(f); fn != nil {
+			sel := t.info.Selections[f]
+			path := sel.Index()[:len(sel.Index())-1]
+			// the object: walk to the (embedded) field the method belongs to
+			v := t.expr(f.X, bs)
+			cur := t.info.TypeOf(f.X)
+			deref := func() {
+				if _, isP := cur.Underlying().(*types.Pointer); isP {
+					tmp := t.freshTmp()
+					*bs = append(*bs, bind{pat: tmp, rhs: "(go_deref " + v + ")"})
+					v = tmp
+					cur = cur.Underlying().(*types.Pointer).Elem()
+				}
+			}
+			deref()
+			for _, ix := range path {
+				nn, _, isS := namedStruct(cur)
+				if !isS || !t.typeOK(nn) {
+					t.fail(x, "promoted external method through unsupported type %s", cur)
+					return "0"
+				}
+				r := t.record(nn)
+				fl := r.fields[ix]
+				if !fl.ok {
+					t.fail(x, "embedded field %s.%s has a type outside the subset", r.name, fl.goName)
+					return "0"
+				}
+				v = "(" + t.q(r.mod, fl.coq) + " " + v + ")"
+				cur = fl.ty
+				deref()
+			}
+			r := t.record(owner)
+			sig := fn.Type().(*types.Signature)
+			ret := "tt"
+			if sig.Results().Len() == 1 {
+				ret = "(" + t.q(r.mod, r.name+"_"+fn.Name()+"_ret") + " " + v + ")"
+			}
+			if kind == "read" {
+				return ret
+			}
+			if len(path) != 0 {
+				t.fail(x, "external call method %s reached through an embedded field: unsupported", fn.Name())
+				return ret
+			}
+			args := []string{}
+			for j, a := range x.Args {
+				if j < sig.Params().Len() && isContextType(sig.Params().At(j).Type()) {
+					continue // context operands are dropped (context.Background() etc. are not evaluated)
+				}
+				if j < sig.Params().Len() {
+					args = append(args, t.exprAs(a, sig.Params().At(j).Type(), bs))
+				} else {
+					args = append(args, t.expr(a, bs))
+				}
+			}
+			ctor := t.q(r.mod, r.name+"_call_"+fn.Name())
+			if len(args) > 0 {
+				ctor = "(" + ctor + " " + strings.Join(args, " ") + ")"
+			}
+			calls := t.q(r.mod, r.name+"_calls")
+			nd := "(" + t.q(r.mod, "set_"+r.name+"_calls") + " " + v + " ((" + calls + " " + v + ") ++ [" + ctor + "]))"
+			if _, isP := t.info.TypeOf(f.X).Underlying().(*types.Pointer); isP {
+				nd = "(Some " + nd + ")"
+			}
+			if !t.ownedRoot(f.X) {
+				t.fail(x, "call of the external method %s.%s: the object must be (a field of) a local owned by this function", r.name, fn.Name())
+				return ret
+			}
+			t.assignOwned(f.X, nd, bs)
+			return ret
+		}
+	}
 	var callee *types.Func
 	var recv ast.Expr
 	var recvPath []int
@@ -1180,4 +1254,43 @@ func (t *tr2) assignOwned(e ast.Expr, val string, bs *[]bind) {
 	default:
 		t.fail(e, "unsupported owned path %T", e)
 	}
+}
+
+// extMethodOf: f selects a registered external method; returns the method, its kind and the
+// named type that owns it.
+func (t *tr2) extMethodOf(f *ast.SelectorExpr) (*types.Func, string, *types.Named) {
+	sel := t.info.Selections[f]
+	if sel == nil || sel.Kind() != types.MethodVal {
+		return nil, "", nil
+	}
+	fn, _ := sel.Obj().(*types.Func)
+	if fn == nil || fn.Pkg() == nil {
+		return nil, "", nil
+	}
+	sig := fn.Type().(*types.Signature)
+	if sig.Recv() == nil {
+		return nil, "", nil
+	}
+	rt := sig.Recv().Type()
+	if p, ok := rt.(*types.Pointer); ok {
+		rt = p.Elem()
+	}
+	n, ok := rt.(*types.Named)
+	if !ok {
+		// a method of an interface: the receiver type is the interface itself; find the named type
+		if nn, ok2 := t.info.TypeOf(f.X).(*types.Named); ok2 {
+			n, ok = nn, true
+		}
+	}
+	if !ok || n.Obj().Pkg() == nil {
+		return nil, "", nil
+	}
+	kind := extMethods2[n.Obj().Pkg().Path()+"."+n.Obj().Name()+"."+fn.Name()]
+	if kind == "" {
+		return nil, "", nil
+	}
+	if t.g.mods[n.Obj().Pkg().Path()] == "" {
+		return nil, "", nil
+	}
+	return fn, kind, n
 }
